@@ -189,6 +189,8 @@ DICT_SHIFT_INV = [
 
 def _variant(build, label, ensures, loops=None, target="add_empty_mode_to_circuit_spec", replay=None, requires=()):
     props = ["C02", "C10"] if "Parameter" in label else ["C02"]
+    if label == "Group":
+        props = props + ["C09"]        # compress_mode_swaps blocks exactly the declared range mode_1..mode_2 of a group: the range must follow the group's components
     if target == "add_modes_to_circuit_spec":
         props = props + ["C01"]        # Circuit.add shifts the added circuit's components with this function: the ordered product of C01 depends on it
     c = Contract(
